@@ -35,12 +35,6 @@ const c06Reserved = "zq"
 
 // ---- history tail ------------------------------------------------------------------------------
 
-func (g *histGen) rootOf(store string) string {
-	if p := g.w.store(store).Parent; p != "" {
-		return p
-	}
-	return store
-}
 
 // an operation that works on entity x of store st (or refers to it)
 func (g *histGen) opOn(st *sStore, x string) hOp {
@@ -135,15 +129,6 @@ func (g *histGen) uniqueFields(store string) map[string]bool {
 	return m
 }
 
-func (g *histGen) aliveIds(root string) []string {
-	var xs []string
-	for _, id := range g.ids {
-		if g.alive[root][id] {
-			xs = append(xs, id)
-		}
-	}
-	return xs
-}
 
 // validCreate appends transactions that create entity id of store st with references that exist
 // (creating missing targets of non-nullable references first) and mostly collision-free unique values
